@@ -588,3 +588,64 @@ func codecCompare(c *Ctx, decls *goDecls, cs respCase, respType, text string, re
 		c.Res.Count("codec:roundtrip-compared")
 	}
 }
+
+
+// sameKeyDifferentTypes: somewhere in the type tree, a struct and its embedded fragments (or two of its fragments)
+// carry one JSON name with different Go types.
+func sameKeyDifferentTypes(ty codecTy) bool {
+	switch ty["k"] {
+	case "ptr", "slice":
+		return sameKeyDifferentTypes(ty["t"].(codecTy))
+	case "iface":
+		for _, im := range ty["impls"].([]any) {
+			if sameKeyDifferentTypes(im.(map[string]any)["t"].(codecTy)) {
+				return true
+			}
+		}
+		return false
+	case "struct":
+		byName := map[string]string{}
+		var closure func(st codecTy) bool
+		closure = func(st codecTy) bool {
+			fs, _ := st["fs"].([]any)
+			for _, x := range fs {
+				f := x.(map[string]any)
+				ft := f["t"].(codecTy)
+				if f["emb"] == true {
+					if closure(ft) {
+						return true
+					}
+					continue
+				}
+				n := f["json"].(string)
+				txt := fullJSON(ft)
+				if o, ok := byName[n]; ok && o != txt {
+					return true
+				}
+				byName[n] = txt
+			}
+			return false
+		}
+		if closure(ty) {
+			return true
+		}
+		var sub func(st codecTy) bool
+		sub = func(st codecTy) bool {
+			fs, _ := st["fs"].([]any)
+			for _, x := range fs {
+				f := x.(map[string]any)
+				ft := f["t"].(codecTy)
+				if f["emb"] == true {
+					if sub(ft) {
+						return true
+					}
+				} else if sameKeyDifferentTypes(ft) {
+					return true
+				}
+			}
+			return false
+		}
+		return sub(ty)
+	}
+	return false
+}
